@@ -441,12 +441,22 @@ lbool ArithLogic::arithmeticElimination(vec<PTRef> const & top_level_arith, Subs
         out_substitutions.insert(key, singleEqSubstitutions[key]);
     }
 
+    // With uninterpreted functions or arrays a term of the polynomial can occur inside another one, e.g. g(x) in h(g(x)).
+    // Sub-terms are created before the terms that contain them, so the most recently created term cannot occur inside
+    // the others; solving for the first term instead gave g(x) -> 1 - h(g(x)) from g(x) + h(g(x)) = 1, a substitution
+    // whose transitive closure never ends.
+    bool const solveForLastTerm = logic.hasUFs() or logic.hasArrays();
     for (auto & poly : polynomials) {
-        // solve polynomial with respect to its first variable
+        // solve polynomial with respect to its first variable (its last one if terms can be nested)
         assert(poly.size() > 0);
         PTRef var = poly.begin()->var;
         if (var == PTRef_Undef) { // 'c = 0' for some constant c; let the main loop deal with this
             continue;
+        }
+        if (solveForLastTerm) {
+            auto last = poly.end() - 1;
+            if (last->var == PTRef_Undef) { --last; } // the constant term is ordered last
+            var = last->var;
         }
         if (out_substitutions.has(var)) {
             // Already have a substitution for this variable; skip this equality, let the main loop deal with this
